@@ -631,3 +631,307 @@ Check C09_inst_C05_alphabet_reach : forall dbg idna, IdnaOK idna -> forall u,
   CReach3 dbg (host_parse idna) host_parse_opaque host_display u ->
   (has_host u = true -> ~ In 32 (C03_WF.piece u (host_start u) (host_end u))) -> C05_Alphabet.alphabet_ok u.
 Print Assumptions C09_inst_C05_alphabet_reach.
+
+(* ===== F-C10-1 at host level (task c09long) ===== *)
+(* Finding F-C10-1 (Properties/C10.v: C10_idem_refuted, C10_long_witness, C10_long_rejected): ToASCII accepts a label of
+   at most 1000 scalar values whose Punycode form has more than 2000 characters after xn--, and rejects that output.
+   Host::parse hands every non-bracketed input to ToASCII, so the clause idna_fix of IdnaOK (every oracle output is a
+   fixed point of the oracle, on ALL byte inputs) is FALSE of the real idna crate: every theorem above stated relative
+   to `IdnaOK idna` (the domain / IPv4 clause of C09_display_rt, C09_host_model_ok, C09_host_model_HostOK_C02,
+   C09_spec_host_parser, all C09_inst_*; C02_HostOK2_model, C02_reach_partial_model, C16_rt_parsed_model) says nothing
+   about the real crate.  They remain true, and are used below at the capped oracle.
+   Lemmas: Proofs/C09_Long.v, C09_LongRun.v, C09_LongHist.v, C09_LongOrigin.v, C09_LongWit.v. *)
+From RU Require Import Proofs.C09_Long Proofs.C09_LongRun Proofs.C09_LongHist Proofs.C09_LongOrigin Proofs.C09_LongWit.
+From RU Require Proofs.Idna_C10b_Long Proofs.Idna_C10b_Stmt Proofs.C02_ReachPartial.
+
+(* ---- the repaired hypothesis ----
+   known_c10_long d = Known_C10_long d (some dot-separated label of d starts with xn--, any case, and has more than 2000
+   characters after it).  IdnaOK2 idna = IdnaOK idna with the fixed-point clause only for outputs outside the class.
+   cap idna = the oracle that answers None where idna answers inside the class.  IdnaOK is the stronger record; under
+   IdnaOK2 the capped oracle satisfies IdnaOK, so every IdnaOK-relative theorem holds for the host model run with it. *)
+Theorem C09_IdnaOK2_cap : forall idna, (IdnaOK idna -> IdnaOK2 idna) /\ (IdnaOK2 idna -> IdnaOK (cap idna)).
+Proof. exact (fun idna => conj (IdnaOK_IdnaOK2 idna) (IdnaOK2_cap idna)). Qed.
+Check C09_IdnaOK2_cap : forall idna, (IdnaOK idna -> IdnaOK2 idna) /\ (IdnaOK2 idna -> IdnaOK (cap idna)).
+Print Assumptions C09_IdnaOK2_cap.
+
+Check (fun idna => idna2_fix idna) : forall idna, IdnaOK2 idna ->
+  forall bs d, idna bs = Some d -> known_c10_long d = false -> idna d = Some d.
+Check (eq_refl : known_c10_long = Idna_C10b_Long.Known_C10_long).
+Check (eq_refl : cap = fun idna bs =>
+  match idna bs with Some d => if known_c10_long d then None else Some d | None => None end).
+
+(* ---- agreement, Host::parse ----
+   host_in_class idna input = the input is not '['-led and the oracle's answer for its percent-decoded bytes is in the
+   class.  Outside: the capped run IS the run.  Inside: the capped run is Err IdnaError.  Every success of the capped run
+   is the same success of the run; every success of the run whose display text is outside the class (IPv4 / IPv6
+   results always are) is a success of the capped run. *)
+Theorem C09_cap_agree : forall idna input,
+  (host_in_class idna input = false -> host_parse (cap idna) input = host_parse idna input)
+  /\ (host_in_class idna input = true -> host_parse (cap idna) input = Err IdnaError)
+  /\ (forall h, host_parse (cap idna) input = Ok h -> host_parse idna input = Ok h)
+  /\ (IdnaOK2 idna -> forall h, host_parse idna input = Ok h -> known_c10_long (host_display h) = false ->
+      host_parse (cap idna) input = Ok h).
+Proof.
+  exact (fun idna input => conj (cap_agree idna input) (conj (cap_class idna input) (conj (cap_refines idna input)
+           (fun OK h => cap_result idna input h OK)))).
+Qed.
+Check C09_cap_agree : forall idna input,
+  (host_in_class idna input = false -> host_parse (cap idna) input = host_parse idna input)
+  /\ (host_in_class idna input = true -> host_parse (cap idna) input = Err IdnaError)
+  /\ (forall h, host_parse (cap idna) input = Ok h -> host_parse idna input = Ok h)
+  /\ (IdnaOK2 idna -> forall h, host_parse idna input = Ok h -> known_c10_long (host_display h) = false ->
+      host_parse (cap idna) input = Ok h).
+Print Assumptions C09_cap_agree.
+
+(* ---- the domain / IPv4 clause of C09_display_rt and the form clause of C09_domain, for the oracle ITSELF, relative to
+   IdnaOK2: Display then parse returns the same Host for every parsed host whose text is outside the class ---- *)
+Theorem C09_display_rt2 : forall idna, IdnaOK2 idna -> forall input h, host_parse idna input = Ok h ->
+  (known_c10_long (host_display h) = false -> host_parse idna (host_display h) = Ok h)
+  /\ (forall d, h = HDomain d ->
+        Forall (fun c => c < 128 /\ is_upper c = false /\ Spec.forbidden_domain_code_point c = false) d).
+Proof.
+  intros idna OK input h H. split; [exact (special_display_rt2 idna input h OK H)|].
+  intros d ->. exact (domain_form2 idna input d OK H).
+Qed.
+Check C09_display_rt2 : forall idna, IdnaOK2 idna -> forall input h, host_parse idna input = Ok h ->
+  (known_c10_long (host_display h) = false -> host_parse idna (host_display h) = Ok h)
+  /\ (forall d, h = HDomain d ->
+        Forall (fun c => c < 128 /\ is_upper c = false /\ Spec.forbidden_domain_code_point c = false) d).
+Print Assumptions C09_display_rt2.
+
+(* ---- the exclusion is necessary: an oracle that satisfies IdnaOK2, answers "x" with the label xn--a...a (2001 a's) and
+   refuses that label, as the crate does with its own long outputs.  IdnaOK is false of it; Host::parse "x" succeeds and
+   parsing the display text of the result fails: the display round trip of C09 without the exclusion is FALSE ---- *)
+Theorem C09_long_refuted :
+  (IdnaOK2 idna_long /\ ~ IdnaOK idna_long
+   /\ host_parse idna_long [120] = Ok (HDomain W_long_label)
+   /\ host_parse idna_long (host_display (HDomain W_long_label)) = Err IdnaError
+   /\ host_in_class idna_long [120] = true
+   /\ host_parse (cap idna_long) [120] = Err IdnaError)
+  /\ ~ (forall idna, IdnaOK2 idna -> forall input h, host_parse idna input = Ok h -> host_parse idna (host_display h) = Ok h).
+Proof. exact (conj long_refuted display_rt_needs_class). Qed.
+Check C09_long_refuted :
+  (IdnaOK2 idna_long /\ ~ IdnaOK idna_long
+   /\ host_parse idna_long [120] = Ok (HDomain W_long_label)
+   /\ host_parse idna_long (host_display (HDomain W_long_label)) = Err IdnaError
+   /\ host_in_class idna_long [120] = true
+   /\ host_parse (cap idna_long) [120] = Err IdnaError)
+  /\ ~ (forall idna, IdnaOK2 idna -> forall input h, host_parse idna input = Ok h -> host_parse idna (host_display h) = Ok h).
+Print Assumptions C09_long_refuted.
+
+(* ---- the same on the IDNA MODEL (Model/Uts46.v called as host.rs calls it, lower-casing adapter of
+   Proofs/Idna_C10b_Long.v): the host of the 1000 ideographs U+4E00 + 20*i is accepted as a 2962-character domain inside
+   the class, which Host::parse refuses; http://<those ideographs>/ parses, its serialization (2970 bytes) does not
+   (confirmed on the crates: Url::parse(u.as_str()) = Err(IdnaError), Host::parse(u.host_str()) = Err).  And for EVERY
+   adapter an answer of the model inside the class refutes IdnaOK ---- *)
+Theorem C09_long_model :
+  (idna_low Idna_C10b_Long.W_C10_long = Some Idna_C10b_Long.W_C10_long_A /\ known_c10_long Idna_C10b_Long.W_C10_long_A = true /\ idna_low Idna_C10b_Long.W_C10_long_A = None
+   /\ host_parse idna_low Idna_C10b_Long.W_C10_long_U = Ok (HDomain Idna_C10b_Long.W_C10_long_A)
+   /\ host_parse idna_low (host_display (HDomain Idna_C10b_Long.W_C10_long_A)) = Err IdnaError
+   /\ host_in_class idna_low Idna_C10b_Long.W_C10_long_U = true
+   /\ host_parse (cap idna_low) Idna_C10b_Long.W_C10_long_U = Err IdnaError)
+  /\ (parse_url false (host_parse idna_low) host_parse_opaque host_display None None W_long_url = POk wm_u
+      /\ ser wm_u = W_long_url_ser /\ nlen (ser wm_u) = 2970
+      /\ parse_url false (host_parse idna_low) host_parse_opaque host_display None None (utf8_lossy (ser wm_u)) = PErr IdnaError)
+  /\ ~ IdnaOK idna_low
+  /\ (forall A cfg bs d, idna_of A cfg bs = Some d -> known_c10_long d = true -> ~ IdnaOK (idna_of A cfg)).
+Proof. exact (conj model_long_host (conj model_long_url (conj model_long_not_IdnaOK class_answer_not_IdnaOK))). Qed.
+Check C09_long_model :
+  (idna_low Idna_C10b_Long.W_C10_long = Some Idna_C10b_Long.W_C10_long_A /\ known_c10_long Idna_C10b_Long.W_C10_long_A = true /\ idna_low Idna_C10b_Long.W_C10_long_A = None
+   /\ host_parse idna_low Idna_C10b_Long.W_C10_long_U = Ok (HDomain Idna_C10b_Long.W_C10_long_A)
+   /\ host_parse idna_low (host_display (HDomain Idna_C10b_Long.W_C10_long_A)) = Err IdnaError
+   /\ host_in_class idna_low Idna_C10b_Long.W_C10_long_U = true
+   /\ host_parse (cap idna_low) Idna_C10b_Long.W_C10_long_U = Err IdnaError)
+  /\ (parse_url false (host_parse idna_low) host_parse_opaque host_display None None W_long_url = POk wm_u
+      /\ ser wm_u = W_long_url_ser /\ nlen (ser wm_u) = 2970
+      /\ parse_url false (host_parse idna_low) host_parse_opaque host_display None None (utf8_lossy (ser wm_u)) = PErr IdnaError)
+  /\ ~ IdnaOK idna_low
+  /\ (forall A cfg bs d, idna_of A cfg bs = Some d -> known_c10_long d = true -> ~ IdnaOK (idna_of A cfg)).
+Print Assumptions C09_long_model.
+Check (eq_refl : idna_low = idna_of Idna_C10b_Long.lowad false).
+Check (eq_refl : W_long_url = (B "http://" ++ Idna_C10b_Long.W_C10_long_U ++ [47])%list).
+Check (eq_refl : W_long_url_ser = (B "http://" ++ Idna_C10b_Long.W_C10_long_A ++ [47])%list).
+
+(* ---- what IdnaOK2 amounts to for the IDNA model: C10's output statement, idempotence OUTSIDE the class at the options
+   host.rs uses (an instance of the corrected statement C10_idem_statement2), dotted decimal mapped to itself ---- *)
+Theorem C09_idna_premise2 : forall A cfg,
+  C10_ascii_statement A cfg -> idem_url2 A cfg -> v4_fixed A cfg -> IdnaOK2 (idna_of A cfg).
+Proof. exact IdnaOK2_of_model. Qed.
+Check C09_idna_premise2 : forall A cfg,
+  C10_ascii_statement A cfg ->
+  (forall d b r, bytes d -> to_ascii A cfg d DENY_URL HAllow DIgnore = U32_c13.Ok (b, r) ->
+     Idna_C10b_Long.Known_C10_long r = false ->
+     exists b', to_ascii A cfg r DENY_URL HAllow DIgnore = U32_c13.Ok (b', r)) ->
+  (forall a, a < 4294967296 ->
+     exists b, to_ascii A cfg (ipv4_display a) DENY_URL HAllow DIgnore = U32_c13.Ok (b, ipv4_display a)) ->
+  IdnaOK2 (idna_of A cfg).
+Print Assumptions C09_idna_premise2.
+
+(* ---- agreement, the URL parser: the parser model calls Host::parse in three places and passes every error on, so the
+   run with the capped oracle is the run with the oracle itself, or stops with IdnaError (at the first host whose oracle
+   answer is in the class).  run_clean dbg idna ovr base input = the two runs are equal = "no host of the run is in the
+   class"; a capped run that succeeds is a clean run with the same result ---- *)
+Theorem C09_cap_parse_url : forall dbg idna ovr base input,
+  (parse_url dbg (host_parse (cap idna)) host_parse_opaque host_display ovr base input
+     = parse_url dbg (host_parse idna) host_parse_opaque host_display ovr base input
+   \/ parse_url dbg (host_parse (cap idna)) host_parse_opaque host_display ovr base input = PErr IdnaError)
+  /\ (forall u, parse_url dbg (host_parse (cap idna)) host_parse_opaque host_display ovr base input = POk u ->
+        parse_url dbg (host_parse idna) host_parse_opaque host_display ovr base input = POk u
+        /\ run_clean dbg idna ovr base input).
+Proof. exact (fun dbg idna ovr base input => conj (parse_url_cap dbg idna ovr base input) (parse_url_cap_ok dbg idna ovr base input)). Qed.
+Check C09_cap_parse_url : forall dbg idna ovr base input,
+  (parse_url dbg (host_parse (cap idna)) host_parse_opaque host_display ovr base input
+     = parse_url dbg (host_parse idna) host_parse_opaque host_display ovr base input
+   \/ parse_url dbg (host_parse (cap idna)) host_parse_opaque host_display ovr base input = PErr IdnaError)
+  /\ (forall u, parse_url dbg (host_parse (cap idna)) host_parse_opaque host_display ovr base input = POk u ->
+        parse_url dbg (host_parse idna) host_parse_opaque host_display ovr base input = POk u
+        /\ parse_url dbg (host_parse (cap idna)) host_parse_opaque host_display ovr base input
+           = parse_url dbg (host_parse idna) host_parse_opaque host_display ovr base input).
+Print Assumptions C09_cap_parse_url.
+
+(* ---- agreement, histories: three mutators call Host::parse (Url::set_host, quirks set_host / set_hostname) and
+   return the URL unchanged when the host is refused, so a step with the capped oracle is the step with the oracle
+   itself or leaves the URL as it was; every URL reachable (parse, join, the 19 mutators) with the capped oracle is
+   reachable with the oracle itself, and the clean histories of the model are histories of the capped model ---- *)
+Theorem C09_cap_history : forall dbg idna,
+  (forall u o, C05_History.apply_op dbg (host_parse (cap idna)) host_parse_opaque host_display u o
+               = C05_History.apply_op dbg (host_parse idna) host_parse_opaque host_display u o
+            \/ C05_History.apply_op dbg (host_parse (cap idna)) host_parse_opaque host_display u o = Some u)
+  /\ (forall u o, C02_Reach.apply_op dbg (host_parse (cap idna)) host_parse_opaque host_display u o
+               = C02_Reach.apply_op dbg (host_parse idna) host_parse_opaque host_display u o
+            \/ C02_Reach.apply_op dbg (host_parse (cap idna)) host_parse_opaque host_display u o = Some u)
+  /\ (forall u, ReachableM dbg (cap idna) u -> ReachableM dbg idna u)
+  /\ (forall u, ReachableClean dbg idna u -> ReachableM dbg (cap idna) u).
+Proof.
+  exact (fun dbg idna => conj (apply_op5_cap dbg idna) (conj (apply_op2_cap dbg idna)
+           (conj (ReachableM_cap dbg idna) (ReachableClean_cap dbg idna)))).
+Qed.
+Check C09_cap_history : forall dbg idna,
+  (forall u o, C05_History.apply_op dbg (host_parse (cap idna)) host_parse_opaque host_display u o
+               = C05_History.apply_op dbg (host_parse idna) host_parse_opaque host_display u o
+            \/ C05_History.apply_op dbg (host_parse (cap idna)) host_parse_opaque host_display u o = Some u)
+  /\ (forall u o, C02_Reach.apply_op dbg (host_parse (cap idna)) host_parse_opaque host_display u o
+               = C02_Reach.apply_op dbg (host_parse idna) host_parse_opaque host_display u o
+            \/ C02_Reach.apply_op dbg (host_parse (cap idna)) host_parse_opaque host_display u o = Some u)
+  /\ (forall u, ReachableM dbg (cap idna) u -> ReachableM dbg idna u)
+  /\ (forall u, ReachableClean dbg idna u -> ReachableM dbg (cap idna) u).
+Print Assumptions C09_cap_history.
+
+(* ====================================================================================== *)
+(* Corrected instantiations: the oracle ITSELF, premise IdnaOK2 + "no host of the run is in the class" *)
+(* ====================================================================================== *)
+(* C02 classes (i)-(iv): = C09_inst_C02_reparse_nonfile at the capped oracle + agreement on both runs *)
+Theorem C09_inst2_C02_reparse_nonfile : forall dbg idna, IdnaOK2 idna -> forall input u,
+  usv_list input -> nonfile_input input = true ->
+  parse_url dbg (host_parse idna) host_parse_opaque host_display None None input = POk u ->
+  run_clean dbg idna None None input ->
+  parse_url dbg (host_parse idna) host_parse_opaque host_display None None (utf8_lossy (ser u)) = POk u
+  /\ run_clean dbg idna None None (utf8_lossy (ser u)) /\ wf_b u = true /\ ascii (ser u).
+Proof. exact (fun dbg idna OK input u => reparse_nonfile_model2 dbg idna OK input u). Qed.
+Check C09_inst2_C02_reparse_nonfile : forall dbg idna, IdnaOK2 idna -> forall input u,
+  usv_list input -> nonfile_input input = true ->
+  parse_url dbg (host_parse idna) host_parse_opaque host_display None None input = POk u ->
+  parse_url dbg (host_parse (cap idna)) host_parse_opaque host_display None None input
+    = parse_url dbg (host_parse idna) host_parse_opaque host_display None None input ->
+  parse_url dbg (host_parse idna) host_parse_opaque host_display None None (utf8_lossy (ser u)) = POk u
+  /\ run_clean dbg idna None None (utf8_lossy (ser u)) /\ wf_b u = true /\ ascii (ser u).
+Print Assumptions C09_inst2_C02_reparse_nonfile.
+
+(* class (iii), any encoding override; class (iv) with the canonical form (relative to the capped host parser) *)
+Theorem C09_inst2_C02_reparse_auth : forall dbg idna, IdnaOK2 idna -> forall ovr input u,
+  usv_list input -> auth_input input = true ->
+  parse_url dbg (host_parse idna) host_parse_opaque host_display ovr None input = POk u ->
+  run_clean dbg idna ovr None input ->
+  parse_url dbg (host_parse idna) host_parse_opaque host_display None None (utf8_lossy (ser u)) = POk u
+  /\ run_clean dbg idna None None (utf8_lossy (ser u)) /\ wf_b u = true.
+Proof. exact (fun dbg idna OK ovr input u => reparse_auth_model2 dbg idna OK ovr input u). Qed.
+Print Assumptions C09_inst2_C02_reparse_auth.
+
+Theorem C09_inst2_C02_reparse_special : forall dbg idna, IdnaOK2 idna -> forall input u,
+  usv_list input -> special_input input = true ->
+  parse_url dbg (host_parse idna) host_parse_opaque host_display None None input = POk u ->
+  run_clean dbg idna None None input ->
+  parse_url dbg (host_parse idna) host_parse_opaque host_display None None (utf8_lossy (ser u)) = POk u
+  /\ run_clean dbg idna None None (utf8_lossy (ser u)) /\ wf_b u = true
+  /\ canon_special (host_parse (cap idna)) host_parse_opaque host_display u.
+Proof. exact (fun dbg idna OK input u => reparse_special_model2 dbg idna OK input u). Qed.
+Print Assumptions C09_inst2_C02_reparse_special.
+
+(* the premise run_clean cannot be dropped: on the linked model with the stand-in oracle, Url::parse("http://x/")
+   succeeds with the long host, the re-parse of its serialization is PErr IdnaError, the capped run is PErr IdnaError *)
+Theorem C09_inst2_C02_refuted :
+  (parse_url true (host_parse idna_long) host_parse_opaque host_display None None wl_input = POk wl_u
+   /\ ser wl_u = (B "http://" ++ W_long_label ++ [47])%list
+   /\ nonfile_input wl_input = true /\ special_input wl_input = true
+   /\ parse_url true (host_parse idna_long) host_parse_opaque host_display None None (utf8_lossy (ser wl_u)) = PErr IdnaError
+   /\ parse_url true (host_parse (cap idna_long)) host_parse_opaque host_display None None wl_input = PErr IdnaError)
+  /\ ~ (forall dbg idna, IdnaOK2 idna -> forall input u, usv_list input -> nonfile_input input = true ->
+          parse_url dbg (host_parse idna) host_parse_opaque host_display None None input = POk u ->
+          parse_url dbg (host_parse idna) host_parse_opaque host_display None None (utf8_lossy (ser u)) = POk u).
+Proof. exact (conj url_long_refuted reparse_needs_clean). Qed.
+Print Assumptions C09_inst2_C02_refuted.
+Check (eq_refl : wl_input = B "http://x/").
+
+(* C02 for whole histories ReachC (C02_reach_partial_model): parse without base on a non-file scheme, then
+   set_fragment / set_query / set_port with arbitrary arguments and joins with an empty, fragment-only or query-led
+   reference.  A ReachC history of the capped model is a ReachC history of the model (its parse being a clean run), and
+   its result is a fixpoint of serialize-then-parse with the oracle itself *)
+Theorem C09_inst2_C02_reach_partial : forall dbg idna, IdnaOK2 idna -> forall u,
+  C02_ReachPartial.ReachC dbg (host_parse (cap idna)) host_parse_opaque host_display u ->
+  C02_ReachPartial.ReachC dbg (host_parse idna) host_parse_opaque host_display u
+  /\ parse_url dbg (host_parse idna) host_parse_opaque host_display None None (utf8_lossy (ser u)) = POk u
+  /\ run_clean dbg idna None None (utf8_lossy (ser u)) /\ wf_b u = true /\ ascii (ser u).
+Proof. exact (fun dbg idna OK u => reach_partial_model2 dbg idna OK u). Qed.
+Print Assumptions C09_inst2_C02_reach_partial.
+
+(* C05: the alphabet theorems use the FIRST clause of the hypothesis only (every oracle output is ASCII outside the
+   deny list) - they hold for the oracle itself under IdnaOK2 with NO premise about the class: whole parser, sharper
+   form, whole histories (parse, join, the 19 mutators with arbitrary arguments) *)
+Theorem C09_inst2_C05 : forall dbg idna, IdnaOK2 idna ->
+  (forall ovr base input u, match base with Some b => Forall ok_or_space (ser b) | None => True end ->
+     parse_url dbg (host_parse idna) host_parse_opaque host_display ovr base input = POk u -> Forall ok_or_space (ser u))
+  /\ (forall ovr base input u, usv_list input -> match base with Some b => sharp b | None => True end ->
+     parse_url dbg (host_parse idna) host_parse_opaque host_display ovr base input = POk u -> sharp u)
+  /\ (forall u, ReachableM dbg idna u -> Forall ok_or_space (ser u)).
+Proof.
+  exact (fun dbg idna OK => conj (parse_alphabet_model2 dbg idna OK) (conj (parse_sharp_model2 dbg idna OK)
+           (history_alphabet_model2 dbg idna OK))).
+Qed.
+Check C09_inst2_C05 : forall dbg idna, IdnaOK2 idna ->
+  (forall ovr base input u, match base with Some b => Forall ok_or_space (ser b) | None => True end ->
+     parse_url dbg (host_parse idna) host_parse_opaque host_display ovr base input = POk u -> Forall ok_or_space (ser u))
+  /\ (forall ovr base input u, usv_list input -> match base with Some b => sharp b | None => True end ->
+     parse_url dbg (host_parse idna) host_parse_opaque host_display ovr base input = POk u -> sharp u)
+  /\ (forall u, ReachableM dbg idna u -> Forall ok_or_space (ser u)).
+Print Assumptions C09_inst2_C05.
+
+(* C16: the origin round trip.  url_origin re-enters the parser on the path of a blob: URL and swallows its errors, so
+   the premise is stated as: parse and origin succeed with the capped oracle (= with the oracle itself on clean runs);
+   all four runs of the conclusion are runs with the oracle itself *)
+Theorem C09_inst2_C16_rt_parsed : forall dbg idna, IdnaOK2 idna -> forall input u c o c',
+  url_parse dbg (host_parse (cap idna)) host_parse_opaque host_display input = POk u ->
+  url_origin dbg (host_parse (cap idna)) host_parse_opaque host_display c u = OOk o c' -> is_tuple o = true ->
+  nlen (ascii_serialization host_display o) < U32_MAX_P ->
+  (url_parse dbg (host_parse idna) host_parse_opaque host_display input = POk u
+   /\ url_origin dbg (host_parse idna) host_parse_opaque host_display c u = OOk o c')
+  /\ exists w, url_parse dbg (host_parse idna) host_parse_opaque host_display (ascii_serialization host_display o) = POk w
+               /\ url_origin dbg (host_parse idna) host_parse_opaque host_display c' w = OOk o c'.
+Proof. exact (fun dbg idna OK input u c o c' => origin_rt_model2 dbg idna OK input u c o c'). Qed.
+Print Assumptions C09_inst2_C16_rt_parsed.
+
+(* non-vacuity: the stand-in oracle satisfies IdnaOK2 and not IdnaOK; Host::parse "a.b" is outside the class, the capped
+   run agrees; the run of the linked model on http://a.b:81/p is clean and in the classes of the theorems above *)
+Example C09_inst2_examples :
+  IdnaOK2 idna_long
+  /\ host_parse idna_long [97; 46; 98] = Ok (HDomain [97; 46; 98]) /\ known_c10_long (host_display (HDomain [97; 46; 98])) = false
+  /\ host_in_class idna_long [97; 46; 98] = false
+  /\ host_parse (cap idna_long) [97; 46; 98] = Ok (HDomain [97; 46; 98])
+  /\ host_parse idna_long [49; 46; 50] = Ok (HIpv4 16777218)
+  /\ run_clean true idna_long None None (B "http://a.b:81/p")
+  /\ nonfile_input (B "http://a.b:81/p") = true /\ special_input (B "http://a.b:81/p") = true
+  /\ match parse_url true (host_parse idna_long) host_parse_opaque host_display None None (B "http://a.b:81/p") with
+     | POk u => list_eqb (ser u) (B "http://a.b:81/p") | _ => false end = true.
+Proof.
+  split; [exact idna_long_ok2|]. destruct long_premises_hold as (H1 & H2 & H3 & H4 & H5).
+  repeat (split; [assumption|]). unfold run_clean. vm_compute. repeat split; reflexivity.
+Qed.
